@@ -117,6 +117,8 @@ func (g *gen) genFunc(typs []types.Type) error {
 
 func (g *gen) genStatement(o string, typ types.Type) error {
 	p := g.printer
+	// an alias is the type it stands for: look at that type, not at the alias node
+	typ = types.Unalias(typ)
 	switch ttyp := typ.Underlying().(type) {
 	case *types.Basic:
 		switch ttyp.Kind() {
@@ -146,7 +148,7 @@ func (g *gen) genStatement(o string, typ types.Type) error {
 		return nil
 	case *types.Pointer:
 		ref := "*" + o
-		reftyp := ttyp.Elem()
+		reftyp := types.Unalias(ttyp.Elem())
 		named, isNamed := reftyp.(*types.Named)
 		strct, isStruct := reftyp.Underlying().(*types.Struct)
 		p.P("if %s == nil {", o)
